@@ -162,7 +162,7 @@ def run(tier, rep):
     for lay, NR in sorted(LAYOUTS.items()):
         for bt, tree, srt in (("periodic", True, False), ("periodic", False, False), ("open", True, False), ("open", False, False),
                               ("open", False, True), ("shear", False, False)):
-            if quick and lay == "NR211" and bt != "periodic":
+            if quick and lay == "NR211" and bt not in ("periodic", "shear"):       # (the sheet needs a layout with Lx != Ly)
                 continue
             c = {"W": 16, "NR": NR, "lay": lay, "BType": bt, "UseTree": tree, "Sorted": srt, "S": 12}
             tag = "%s_%s_%s%s" % (lay, bt, "tree" if tree else "plain", "_sorted" if srt else "")
